@@ -75,6 +75,9 @@ func (s *C15Script) Source() string {
 			ls = append(ls, asg("acc2")+"0", "for i := 0; i < "+fmt.Sprint(st.C)+"; i++ {", "	acc2 += i", "}")
 		case "ifblk":
 			ls = append(ls, asg("blk")+"0", "if tmp := ini; tmp != 0 {", "	blk = tmp + "+fmt.Sprint(st.C), "}")
+		case "fnassign":
+			// a global assigned from inside a function
+			ls = append(ls, asg("gfa")+"0", asg("setg")+"func(v) { gfa = v }", "setg("+fmt.Sprint(st.C)+")")
 		case "shadow":
 			// a block-scoped variable with the name of an input: the input itself must stay as it is
 			ls = append(ls, asg("shw")+"0", "if shw == 0 {", "	inx := "+fmt.Sprint(st.C), "	shw = inx", "}")
@@ -127,7 +130,9 @@ func (g *c15g) script() C15Script {
 		case x == 11:
 			s.Stmts = append(s.Stmts, C15Stmt{K: "tick", C: g.u()})
 		case x == 12 && g.r.Chance(1, 3):
-			if g.r.Chance(1, 2) {
+			if g.r.Chance(1, 3) {
+				s.Stmts = append(s.Stmts, C15Stmt{K: "fnassign", C: g.u()})
+			} else if g.r.Chance(1, 2) {
 				s.Stmts = append(s.Stmts, C15Stmt{K: "shadow", C: g.u()})
 			} else {
 				s.Stmts = append(s.Stmts, C15Stmt{K: "fshadow", S: fmt.Sprintf("q%d", g.u())})
@@ -158,12 +163,13 @@ func (g *c15g) value(depth int) plan.Value {
 	if g.r.Chance(1, 6) {
 		// boundary values of the coercion table (these are not unique: only used where uniqueness is not needed)
 		return []plan.Value{
+			plan.Str("+5"), plan.Str("1_000"), plan.Str("5 "), plan.Str("-0"), plan.Str(".5"), plan.Str("Inf"), plan.Bytes([]byte{0xff, 0xfe, 'a'}), plan.Int(1099511627776 + 65),
 			plan.Str("12"), plan.Str(" 12"), plan.Str("1.5"), plan.Str("-7"), plan.Str(""), plan.Str("1e3"), plan.Str("0x10"), plan.Str("true"),
 			plan.Float(-2.75), plan.Float(0), plan.Float(1e18), plan.Int(0), plan.Int(-5), plan.Int(1 << 40), plan.Rune(0), plan.Rune('é'),
 			plan.Int(9223372036854775807), plan.Int(-9223372036854775807 - 1), plan.Int(9007199254740993), plan.Float(-0.5), plan.Float(2147483648.5), plan.GoInt(-1),
 			plan.Bytes([]byte{}), plan.Bytes([]byte("42")), plan.Value{T: "array"}, plan.Map(nil), plan.Bool(false), plan.Bool(true),
 			plan.Value{T: "nan"},
-		}[g.r.Intn(29)]
+		}[g.r.Intn(37)]
 	}
 	switch x := g.r.Intn(22); {
 	case x == 0:
@@ -225,7 +231,7 @@ func (g *c15g) setOp(obj int) plan.Op {
 	return plan.Op{Kind: plan.OpSet, Obj: obj, Name: "nosuch", Val: vp(plan.Int(g.u()))}
 }
 
-var c15Names = []string{"x00", "x07", "x08", "x15", "x16", "x17", "shw", "gsf", "sf", "format", "ini", "ins", "inx", "cst", "gx", "gi", "gs", "arr", "n", "m", "acc", "acc2", "blk", "i", "tmp", "late", "nf", "extra", "nosuch", "tick"}
+var c15Names = []string{"gfa", "setg", "x00", "x07", "x08", "x15", "x16", "x17", "shw", "gsf", "sf", "format", "ini", "ins", "inx", "cst", "gx", "gi", "gs", "arr", "n", "m", "acc", "acc2", "blk", "i", "tmp", "late", "nf", "extra", "nosuch", "tick"}
 
 func (g *c15g) readOp(obj int) plan.Op {
 	switch g.r.Intn(5) {
